@@ -630,6 +630,30 @@ func (g *Gen) genFunction(fn *ssa.Function, con *Contract, safety bool) *FnCtx {
 		fc.params[p.Name()] = v
 		fc.paramTypes[p.Name()] = p.Type()
 		fc.inputs = append(fc.inputs, InputTerm{Path: p.Name(), Term: v.T, Sort: g.ti.sortOf(p.Type())})
+		// the fields of a small all-scalar struct behind a pointer parameter are inputs too (a counterexample then
+		// carries them even when the code never read them on the failing path)
+		root, rootT := "", types.Type(nil)
+		if pt, ok := p.Type().Underlying().(*types.Pointer); ok && isStructLike(pt.Elem()) && v.T != "" {
+			root, rootT = v.T, pt.Elem()
+		} else if isStructLike(p.Type()) && v.SV != nil && !v.SV.zero {
+			root, rootT = v.SV.ref, p.Type()
+		}
+		if root != "" {
+			var ls []Leaf
+			g.ti.leaves(rootT, 0, "", &ls)
+			scalar := len(ls) > 0 && len(ls) <= 8
+			for _, l := range ls {
+				if l.sort != sInt && l.sort != sStr && l.sort != sBool {
+					scalar = false
+				}
+			}
+			if scalar {
+				for _, l := range ls {
+					g.regArr(l.arr, l.sort)
+					fc.inputs = append(fc.inputs, InputTerm{Path: "&" + p.Name() + "." + strings.TrimPrefix(l.path, "."), Term: sel(st.get(l.arr), emb(root, l.off)), Sort: l.sort})
+				}
+			}
+		}
 	}
 	for _, p := range fn.FreeVars {
 		v := fc.freshVal(st, p.Type(), "fv_"+p.Name())
